@@ -2,13 +2,14 @@
 import z3
 from pyvc.core import Contract
 from pyvc.sym import (VInt, VBool, VRef, VList, INT, BOOL, STR, REF, TList, forall, implies, conj, disj, neg,
-                      ite, length, fresh_name, tobool, toint)
+                      ite, length, fresh_name, tobool, toint, qforall)
 from contracts.common import add_common, WF, cbreaks, gapdeg, terms_facts, T_idx, cbreaks_mono, lemma_cbreaks_mono, cbreaks_break, lemma_cbreaks_break
 
 LEMMAS = {"cbreaks_mono": lemma_cbreaks_mono, "cbreaks_break": lemma_cbreaks_break}
 
 VERIFY = ["trees.treeanalysis.gap_degree_node", "trees.treeanalysis.has_gaps",
-          "trees.treeanalysis.gap_type"]
+          "trees.treeanalysis.gap_type", "trees.trees.terminal_blocks"]
+SHARDS = {"trees.trees.terminal_blocks": 8}
 
 TRUSTED = ["definition: gap degree of a node := cbreaks(nums(T(node)), |T|-1), the number of i with "
            "num(T[i])+1 < num(T[i+1]); for a strictly increasing sequence this is the number of maximal "
@@ -63,4 +64,101 @@ def build(reg):
                 forall(lambda j: neg(conj(S.H.nchild(S.H.ochildren(S.tree)[j]) > 0,
                                           gapdeg(S.H, S.H.ochildren(S.tree)[j]) > 0)), 0, S.it))),
         },
+    ))
+
+
+    # ---------------------------------------------------------------- terminal_blocks
+    def tb_parts(S, blocks, upto_closed, tree):
+        """facts about the blocks b < upto_closed (all complete runs)"""
+        H = S.H
+        T = H.terms(tree)
+        b, j = z3.Int(fresh_name("b")), z3.Int(fresh_name("j"))
+        blen = lambda q: blocks.get(q).n
+        bel = lambda q, r: blocks.get(q).get(r)
+        start = lambda q: T_idx(H, tree, bel(q, 0)).t
+        nm = lambda r: H.num(r).t
+        uc = toint(upto_closed)
+        return VBool(z3.And(
+            qforall([b], z3.Implies(z3.And(0 <= b, b < uc), z3.And(
+                blen(b) >= 1, start(b) >= 0,
+                # a closed block ends in a break
+                nm(T.get(start(b) + blen(b) - 1)) + 1 < nm(T.get(start(b) + blen(b))))), [blen(b)]),
+            qforall([b, j], z3.Implies(z3.And(0 <= b, b < uc, 0 <= j, j < blen(b)),
+                                       z3.And(bel(b, j).t == T.get(start(b) + j).t,
+                                              T_idx(H, tree, bel(b, j)).t == start(b) + j)), [bel(b, j).t]),
+            qforall([b, j], z3.Implies(z3.And(0 <= b, b < uc, 1 <= j, j < blen(b)),
+                                       nm(bel(b, j)) == nm(bel(b, j - 1)) + 1), [bel(b, j).t]),
+            qforall([b], z3.Implies(z3.And(0 <= b, b + 1 < uc), start(b + 1) == start(b) + blen(b)), [blen(b)]),
+            z3.Implies(uc >= 1, start(0) == 0),
+        ))
+
+    def tb_inv(S):
+        H, tree, blocks, it = S.H, S.tree, S.blocks, S.it
+        T = H.terms(tree)
+        nb = blocks.n
+        last = blocks.get(nb - 1)
+        L = last.n
+        j = z3.Int(fresh_name("j"))
+        itt = toint(it)
+        start_open = itt - L
+        closed_end = z3.If(nb >= 2,
+                           T_idx(H, tree, blocks.get(nb - 2).get(0)).t + blocks.get(nb - 2).n, 0)
+        nm = lambda r: H.num(r).t
+        return conj(
+            VBool(nb >= 1), VBool(L >= 0), VBool(L <= itt),
+            tb_parts(S, blocks, VInt(nb - 1), tree),
+            VBool(closed_end == start_open),
+            VBool(qforall([j], z3.Implies(z3.And(0 <= j, j < L),
+                                          z3.And(last.get(j).t == T.get(start_open + j).t,
+                                                 T_idx(H, tree, last.get(j)).t == start_open + j)),
+                          [last.get(j).t])),
+            VBool(start_open >= 0),
+            VBool(qforall([j], z3.Implies(z3.And(1 <= j, j < L), nm(last.get(j)) == nm(last.get(j - 1)) + 1),
+                          [last.get(j).t])),
+            # the open block is consecutive up to the element about to be processed
+            VBool(z3.Implies(L >= 1, nm(T.get(itt)) >= nm(T.get(itt - 1)) + 1)),
+            VBool(z3.Implies(z3.And(L >= 1, itt < T.n),
+                             z3.Or(itt >= T.n, nm(T.get(itt - 1)) + 1 == nm(T.get(itt))))),
+            VInt(nb) == cbreaks(H, tree, it) + 1,
+        )
+
+    def tb_post_partition(S, tree, result):
+        H = S.H
+        T = H.terms(tree)
+        nb = result.n
+        return conj(VBool(nb >= 1), tb_parts_open(S, result, tree),
+                    VBool(T_idx(H, tree, result.get(nb - 1).get(0)).t + result.get(nb - 1).n == T.n))
+
+    def tb_parts_open(S, blocks, tree):
+        """as tb_parts for all blocks, but the break condition only between blocks"""
+        H = S.H
+        T = H.terms(tree)
+        b, j = z3.Int(fresh_name("b")), z3.Int(fresh_name("j"))
+        nb = blocks.n
+        blen = lambda q: blocks.get(q).n
+        bel = lambda q, r: blocks.get(q).get(r)
+        start = lambda q: T_idx(H, tree, bel(q, 0)).t
+        nm = lambda r: H.num(r).t
+        return VBool(z3.And(
+            qforall([b], z3.Implies(z3.And(0 <= b, b < nb), blen(b) >= 1), [blen(b)]),
+            qforall([b, j], z3.Implies(z3.And(0 <= b, b < nb, 0 <= j, j < blen(b)),
+                                       bel(b, j).t == T.get(start(b) + j).t), [bel(b, j).t]),
+            qforall([b, j], z3.Implies(z3.And(0 <= b, b < nb, 1 <= j, j < blen(b)),
+                                       nm(bel(b, j)) == nm(bel(b, j - 1)) + 1), [bel(b, j).t]),
+            qforall([b], z3.Implies(z3.And(0 <= b, b + 1 < nb),
+                                    z3.And(start(b + 1) == start(b) + blen(b),
+                                           nm(bel(b, blen(b) - 1)) + 1 < nm(bel(b + 1, 0)))), [blen(b)]),
+            start(0) == 0,
+        ))
+
+    reg.add(Contract(
+        target="trees.trees.terminal_blocks", prop="C16", args=dict(tree=REF),
+        requires=lambda S, tree: WF(S.H, tree) & (tree != None),
+        ensures={
+            "partition_into_runs_in_order": tb_post_partition,
+            "count": lambda S, tree, result:
+                length(result) == cbreaks(S.H, tree, length(S.H.terms(tree)) - 1) + 1,
+        },
+        result_type=TList(TList(REF)),
+        loops={0: dict(inv=tb_inv, types={"blocks": TList(TList(REF))})},
     ))
